@@ -28,6 +28,8 @@ SCHEMA = {
     "mypy.nodes.IntExpr": {"value": "int"},
     "mypy.nodes.StrExpr": {"value": "str"},
     "mypy.nodes.FloatExpr": {"value": "float"},
+    "mypy.nodes.TupleExpr": {"items": "list[mp_nodes.Expression]"},
+    "mypy.nodes.UnaryExpr": {"expr": "mp_nodes.Expression"},
     "mypy.nodes.Var": {"is_self": "bool", "is_cls": "bool", "name": "str", "fullname": "str",
                        "type": "mp_types.Type | None", "explicit_self_type": "bool", "is_inferred": "bool"},
 }
